@@ -31,6 +31,10 @@ type PairResult struct {
 	Symptoms []Symptom
 	Files    map[string]string // replay bundle
 	Emptied  int               // files that lost all their declarations
+	// imports of pruned files referenced only below another selector (pkg.New().Len(), pkg.V.F, ...)
+	NestedOnly int
+	// all-blank single-value specs (var _, _ = f(); var _ T) of original files next to overrides
+	BlankSingle int
 }
 
 var stubs = newStubImporter()
@@ -131,6 +135,8 @@ func CheckPair(m *Model) (res PairResult) {
 		if ef.Touched && ef.Survivors == 0 {
 			res.Emptied++
 		}
+		res.NestedOnly += ef.NestedOnly
+		res.BlankSingle += ef.BlankSingle
 	}
 	checkTexts(m.ImportPath, names, texts, exp, &res)
 	return
@@ -140,7 +146,8 @@ func CheckPair(m *Model) (res PairResult) {
 // (as source text), run the real augmentation and compare. names[side] are file names in
 // input order; exp lists the expected files, overlay files first.
 func checkTexts(importPath string, names [2][]string, texts [2]map[string]string, exp []ExpFile, resp *PairResult) {
-	res := PairResult{Files: resp.Files, Emptied: resp.Emptied}
+	res := *resp
+	res.Mishap, res.Symptoms = "", nil
 	defer func() { *resp = res }()
 	expTexts := map[string]string{}
 	var expNames []string
@@ -345,11 +352,12 @@ func Run(c *core.Ctx) int {
 		name string
 		n    int
 	}
-	workloads := []wl{{"main", nMain}, {"iota", nMain / 20}, {"blank", nMain / 20}}
+	workloads := []wl{{"main", nMain}, {"iota", nMain / 20}, {"blank", nMain / 20}, {"blankiota", nMain / 50}}
 
 	var mu sync.Mutex
 	hist := map[string]int{}
-	pairs, mishaps, emptied, entities := 0, 0, 0, 0
+	useHist := map[string]int{}
+	pairs, mishaps, emptied, entities, nestedOnly, blankSingle := 0, 0, 0, 0, 0, 0
 	classCount := map[string]int{}
 	var witnesses []witness
 	mishapSamples := []string{}
@@ -360,7 +368,8 @@ func Run(c *core.Ctx) int {
 		nChunks := (w.n + chunk - 1) / chunk
 		c.Parallel(nChunks, func(ci int) {
 			localHist := map[string]int{}
-			lp, lm, le, lent := 0, 0, 0, 0
+			localUse := map[string]int{}
+			lp, lm, le, lent, lno, lbs := 0, 0, 0, 0, 0, 0
 			var lw []witness
 			var lms []string
 			for i := ci * chunk; i < (ci+1)*chunk && i < w.n; i++ {
@@ -375,9 +384,18 @@ func Run(c *core.Ctx) int {
 				}
 				lp++
 				le += r.Emptied
+				lno += r.NestedOnly
+				lbs += r.BlankSingle
 				for _, e := range m.Ents {
 					localHist[e.label()]++
 					lent++
+					for _, s := range e.S {
+						if s != nil {
+							for _, u := range s.Uses {
+								localUse[u.label()]++
+							}
+						}
+					}
 				}
 				seen := map[string]bool{}
 				for _, s := range r.Symptoms {
@@ -392,8 +410,13 @@ func Run(c *core.Ctx) int {
 			mishaps += lm
 			emptied += le
 			entities += lent
+			nestedOnly += lno
+			blankSingle += lbs
 			for k, v := range localHist {
 				hist[k] += v
+			}
+			for k, v := range localUse {
+				useHist[k] += v
 			}
 			for _, x := range lw {
 				classCount[x.workload+"."+x.class]++
@@ -408,6 +431,9 @@ func Run(c *core.Ctx) int {
 	c.Count("pairs_checked", pairs)
 	c.Count("entities", entities)
 	c.Count("files_emptied_by_merge", emptied)
+	c.Count("imports_of_pruned_files_referenced_only_below_a_selector", nestedOnly)
+	c.Count("all_blank_single_value_specs_in_originals_next_to_overrides", blankSingle)
+	c.Count("distinct_import_reference_shapes", len(useHist))
 	for k, v := range classCount {
 		c.Count("violating_pairs/"+k, v)
 	}
@@ -466,16 +492,18 @@ func Run(c *core.Ctx) int {
 		top[strings.Join(parts[:3], "/")] += v
 	}
 	extra := map[string]any{
-		"histogram_kind_origin_directive": top,
-		"distinct_kind_origin_directive":  len(top),
-		"distinct_full_combinations":      distinct,
-		"std":                             std,
+		"histogram_kind_origin_directive":  top,
+		"distinct_kind_origin_directive":   len(top),
+		"distinct_full_combinations":       distinct,
+		"histogram_import_reference_shape": useHist,
+		"std":                              std,
 	}
 	evaluations := pairs + std.Compared + nSent
 	return c.Finish("exploration", evaluations, distinct, 150,
-		"pairs (original files, overlay files) rendered from a declarative model; the expected merged package is computed from the model with the rules of doc/pargma.md and compared (per file: ordered entity tuples (kind,key,body,signature,go-directives,const value), import lists, file order) with what the real augmentOverlayFile/augmentOriginalFile/pruneImports produce; merged package type-checked; printed form re-parsed and compared; plus every overlay-bearing std package through the real Session.LoadPackages vs the hook replica vs an independent rule evaluator. distinct_nontrivial = distinct (kind, origin, directive, grouping-original, grouping-overlay) combinations of generated entities",
+		"pairs (original files, overlay files) rendered from a declarative model; the expected merged package is computed from the model with the rules of doc/pargma.md and compared (per file: ordered entity tuples (kind,key,body,signature,go-directives,const value), import lists, file order) with what the real augmentOverlayFile/augmentOriginalFile/pruneImports produce; merged package type-checked; printed form re-parsed and compared; plus every overlay-bearing std package through the real Session.LoadPackages vs the hook replica vs an independent rule evaluator. References to imported packages are drawn from a table of syntactic shapes (uses.go: plain qualified identifiers, operands of further selectors/calls/indexes, type arguments, composite literals, array lengths, embedded fields, interface elements, closures, defer/go, locals and parameters shadowing the import name); value specs cover names==values, one call for several names, several names sharing a type without values, each of them typed/untyped, grouped/ungrouped, with blank names as placeholders or as the only names (workload blank), positional constant groups with blank placeholders (workload iota) and with blank names only (workload blankiota). distinct_nontrivial = distinct (kind, origin, directive, grouping-original, grouping-overlay) combinations of generated entities",
 		extra, []string{
 			"the documented rules are those of doc/pargma.md plus the property statement; init functions never override, the blank identifier is not a name",
+			"a blank name that owns a value (names==values) is a declaration of its own and stays; blank names of a single-value spec or of a positional constant group are placeholders that go with the last named one; a spec or positional group that never had a named one is unrelated to every override and stays",
 			"imports of a file that lost all its declarations are not compared (the documentation is silent; the code drops them all)",
 			"list of packages with sync->nosync substitution is copied from build/build.go",
 			"std cross-check compares syntax only (GOROOT is go1.23, overlays target go1.20)",
